@@ -12,6 +12,12 @@
 (*   level 3  (LInit / LNext)  the loop body of train_pets: TrainModel /      *)
 (*            SkipTraining, ActRandom / ActPlanned, EnvStep, EpisodeEnd /      *)
 (*            Continue                                                         *)
+(*   level 0  (SInit / SNext)  what train_pets puts into PETSMPCConfig         *)
+(* Where the code's behaviour is surprising it is modelled as it is and named  *)
+(* (ShiftFillsAvgAct, IterKeyReusedEveryIteration,                             *)
+(* SameRootForTrainingAndPlanning); the invariants that an idealised variant   *)
+(* would satisfy (IterationKeysDistinct, PlannerAndTrainingKeysDisjoint) are   *)
+(* evaluated for information only.                                            *)
 (*                                                                            *)
 (* Device D1: plans are sequences of TAGS.  <<c, k>> is "row k of the plan    *)
 (* the optimiser returned at planner call c", A = <<0, 0>> is the row avg_act. *)
@@ -302,6 +308,10 @@ EpochsHandOverOnce == \A i \in 1..Len(loop.trains) : loop.trains[i].epochs = Epo
 (* the batch is as large as the buffer: everything stored so far, at most the capacity *)
 TrainsOnWholeBuffer == \A i \in 1..Len(loop.trains) : loop.trains[i].batch = MinI(loop.trains[i].t, Cap)
 TrainKeysDistinct == \A i, j \in 1..Len(loop.trains) : i # j => loop.trains[i].key # loop.trains[j].key
+(* WHAT THE CODE DOES (SameRootForTrainingAndPlanning): train_pets starts both the training key chain (`key`) and the
+   planner key chain (`mpc_state.key`) from jax.random.key(seed), so the i-th model training and the i-th planner call
+   consume the same key.  The invariant below would hold for distinct roots; it is refuted for the code (reported, not enforced). *)
+PlannerAndTrainingKeysDisjoint == {loop.trains[i].key : i \in 1..Len(loop.trains)} \cap mpc.consumed = {}
 (* random actions exactly before learning_starts, the planner from then on; one planner call per planned step *)
 RandomExactlyBeforeLearningStarts ==
   /\ \A u \in 1..Len(loop.acts) : loop.acts[u] = IF ActsRandomlyP(u - 1, LearningStarts) THEN "random" ELSE "planned"
